@@ -732,9 +732,46 @@ func (x *Exec) applyContract(fr *Frame, st *State, con *Contract, sig *types.Sig
 	bindResults(env2, con, sig, res)
 	var posts []*Term
 	for _, e := range con.Ensures {
+		if e.Internal {
+			continue
+		}
 		posts = append(posts, env2.boolean(e.Expr))
 	}
-	x.assumePC(st, And(posts...))
+	post := And(posts...)
+	// result structuring: unconditional clauses "res.f.g == t" (t not mentioning res) are folded into the result
+	// value, so that e.g. the next state of a state machine is known syntactically to the caller
+	if res.T != nil && dtTab[res.T.Sort] != nil && res.T.kind == kConst {
+		cur := res.T
+		for round := 0; round < 4; round++ {
+			changed := false
+			for _, c := range conjuncts(post) {
+				if c.kind != kApp || c.Op != "=" {
+					continue
+				}
+				for k := 0; k < 2; k++ {
+					lhs, rhs := c.Args[k], c.Args[1-k]
+					path, ok := accessorPath(lhs, res.T)
+					if !ok || len(path) == 0 || mentions(rhs, res.T) {
+						continue
+					}
+					if getPath(cur, path) == rhs {
+						continue
+					}
+					cur = setPath(cur, path, rhs)
+					changed = true
+				}
+			}
+			if !changed {
+				break
+			}
+		}
+		if cur != res.T {
+			m := map[*Term]*Term{res.T: cur}
+			post = Subst(post, m)
+			res = Value{T: cur}
+		}
+	}
+	x.assumePC(st, post)
 	return res
 }
 
@@ -887,6 +924,19 @@ func singleIn(reg modRegion, ref, idx *Term) *Term {
 // freshOnlyGhost: typestate maps whose entries for identities that existed before a call / loop /
 // function entry are never changed by that call / loop / function (groups are never shared).
 var freshOnlyGhost = map[string]bool{"pending": true, "groupErr": true}
+
+// volatileGhost: scratch ghosts set by monitors right before they are used; they carry nothing across calls.
+var volatileGhost = map[string]bool{"curAct": true}
+
+// freshUnlessListed: typestate of channels and contexts. A function that does not list them in its modifies clause may
+// only create new channels / contexts (entries of identities that existed at its entry are unchanged).
+func freshUnlessListed(g string) bool {
+	switch g {
+	case "ctxNoCancel", "ctxExpires", "ctxCancelled", "chClosed", "chCloser", "chExt", "chCap", "chLen":
+		return true
+	}
+	return strings.HasPrefix(g, "chHas_")
+}
 
 // hasInnerStar: does the location path contain x[*] followed by further selectors?
 func hasInnerStar(e *Expr, top bool) bool {
@@ -1074,6 +1124,8 @@ func (x *Exec) verifyFunction(con *Contract) {
 	x.cur = con
 	x.curKey = con.Func
 	x.facts = nil
+	x.retryOrd = map[*ssa.Function]int{}
+	namedFormulas = map[*Term]*Term{}
 	x.meaningDone = map[*ssa.Function]bool{}
 	start := len(x.obls)
 	defer func() {
@@ -1214,7 +1266,10 @@ func (x *Exec) frameObligations(con *Contract, fn *ssa.Function, args []Value, e
 	}
 	sort.Strings(gs)
 	for _, g := range gs {
-		if freshOnlyGhost[g] && final.G(g) != entry.G(g) {
+		if volatileGhost[g] {
+			continue
+		}
+		if (freshOnlyGhost[g] || (freshUnlessListed(g) && !ghostMod[g])) && final.G(g) != entry.G(g) {
 			// typestate of groups: a function may only change the entries of groups it created itself
 			r := BoundVar("q_fg", "Int")
 			x.oblige(final, "frame", "ghost:"+g, "", Forall([]*Term{r}, [][]*Term{{Select(final.G(g), r)}},
@@ -1252,7 +1307,7 @@ func (x *Exec) monitors(fr *Frame, st *State, key, rel, when string, args []Valu
 		if !(m.Callee == key || m.Callee == rel || strings.HasSuffix(key, "."+m.Callee)) {
 			continue
 		}
-		env := &SpecEnv{x: x, vars: map[string]SVal{}, st: st, old: fr.top.entry, pkg: fr.top.fn.Pkg.Pkg, lets: map[string]*Expr{}, free: x.freeOf[con]}
+		env := &SpecEnv{x: x, vars: map[string]SVal{}, st: st, old: fr.top.entry, pkg: fr.top.fn.Pkg.Pkg, lets: map[string]*Expr{}, free: x.freeOf[con], fr: fr.top}
 		// contract parameters of the function under verification remain visible
 		for i, p := range con.Params {
 			if i < len(fr.top.params) {
@@ -1337,3 +1392,54 @@ func (x *Exec) runGhost(st *State, env *SpecEnv, stmts []*GhostStmt, what, site 
 		}
 	}
 }
+
+// accessorPath: t == acc_k(...acc_1(root)) ? returns the field path [1..k].
+func accessorPath(t, root *Term) ([]int, bool) {
+	var rev []int
+	for t != root {
+		if t.kind != kApp || len(t.Args) != 1 {
+			return nil, false
+		}
+		i, ok := accTab[t.Op]
+		if !ok {
+			return nil, false
+		}
+		rev = append(rev, i)
+		t = t.Args[0]
+	}
+	path := make([]int, len(rev))
+	for i := range rev {
+		path[i] = rev[len(rev)-1-i]
+	}
+	return path, true
+}
+
+func mentions(t, x *Term) bool {
+	seen := map[*Term]bool{}
+	var rec func(t *Term) bool
+	rec = func(t *Term) bool {
+		if t == x {
+			return true
+		}
+		if seen[t] {
+			return false
+		}
+		seen[t] = true
+		for _, a := range t.Args {
+			if rec(a) {
+				return true
+			}
+		}
+		return false
+	}
+	return rec(t)
+}
+
+func getPath(v *Term, path []int) *Term {
+	for _, p := range path {
+		v = Acc(v, p)
+	}
+	return v
+}
+
+func setPath(v *Term, path []int, nv *Term) *Term { return updPath(v, path, nv) }
